@@ -86,6 +86,62 @@ theorem served_until_a_side_asks (sd : Bool) (base : Nat) (ws : List (XW × Nat)
   rw [takeThrough_map_length] at h
   simpa [runConn, closes_iff_asked_over_versions] using h
 
+/-! ### The close decision has no memory -/
+
+/-- **The close decision depends on the exchange only**: whether the connection goes on after an
+exchange is the same whatever its position on the connection (`i`), its context id (`c`) and the
+session state (`s`) - `handle` has no counter and no budget. -/
+theorem close_decision_ignores_history (sd : Bool) (s s' : St) (i i' c c' : Nat) (it : Item) :
+    (handleItem sd s i c it).2.isAgain = (handleItem sd s' i' c' it).2.isAgain := by
+  rw [again_iff_not_ends, again_iff_not_ends]
+
+theorem takeThrough_none {α : Type} (p : α → Bool) (l : List α) (h : ∀ a ∈ l, p a = false) : takeThrough p l = l := by
+  induction l with
+  | nil => rfl
+  | cons a r ih =>
+    simp only [takeThrough, h a (by simp)]
+    simp [ih (fun b hb => h b (by simp [hb]))]
+
+/-- **Keep-alive has no request budget**: if no exchange of a connection asks to close (or hijacks),
+every one of them is served - 10, 1000 or 100000 of them; the number of requests read is the
+length of the script. -/
+theorem keepalive_has_no_request_budget (sd : Bool) (base : Nat) (items : List Item)
+    (h : ∀ it ∈ items, endsConn sd it = false) :
+    numReads (runConn sd base items) = items.length := by
+  have := numReads_run sd base {} 0 [] items
+  rw [takeThrough_none _ _ h] at this
+  simpa [runConn] using this
+
+/-- … in particular any number of exchanges in which neither side asks (any versions, Connection
+lines and framings that do not ask) are all answered, one response each. -/
+theorem long_history_of_non_asking_exchanges_is_served (base : Nat) (ws : List (XW × Nat))
+    (h : ∀ w ∈ ws, clientAsked w.1 = false ∧ originAsked w.1 = false) :
+    numReads (runConn false base (ws.map fun w => toItem w.1 .pass .pass (.ok w.2 false))) = ws.length := by
+  rw [served_until_a_side_asks, takeThrough_none]
+  intro w hw
+  simp [(h w hw).1, (h w hw).2]
+
+/-! ### The idle deadline is per request -/
+
+/-- **The idle timeout bounds each exchange, not the batch**: with the deadline re-armed before every
+`handle`, a batch of exchanges each of which takes no longer than the timeout is served completely,
+however long the batch takes as a whole and whether or not its requests were already buffered. -/
+theorem deadline_is_per_request (timeout now : Nat) (lats : List Nat) (h : ∀ l ∈ lats, l ≤ timeout) :
+    serveTimed timeout now lats = lats.length := by
+  induction lats generalizing now with
+  | nil => rfl
+  | cons l r ih =>
+    have hl : l ≤ timeout := h l (by simp)
+    have : now + l ≤ now + timeout := by omega
+    simp only [serveTimed, this, if_true, List.length_cons]
+    rw [ih _ (fun x hx => h x (by simp [hx]))]; omega
+
+/-- What the property excludes (test): with the deadline armed once for the batch, five exchanges
+of 550 ms under a 2 s timeout lose their tail although each one is far below the timeout. -/
+theorem deadline_armed_once_loses_the_tail_counterexample :
+    serveTimedOnce 2000 0 [550, 550, 550, 550, 550] = 3 ∧ serveTimed 2000 0 [550, 550, 550, 550, 550] = 5 := by
+  decide
+
 /-! ### What is written -/
 
 theorem containsToken_head (t : Bytes) (rest : List Bytes) (h : valueContainsToken t t = true) :
